@@ -105,6 +105,9 @@ def well_conditioned(to):
 def body(ctx):
     warnings.simplefilter("ignore")
     from hydrodiy.stat import metrics, transform
+    global EPS
+    EPS = float(metrics.EPS)     # the guard threshold is read from the code under test, the model takes it as a parameter
+    ctx.extra["EPS_read_from_source"] = EPS
     rng = ctx.rng
     lean = ctx.lean
     reqs, checks = [], []   # checks: (kind, impl_value, cond, case)
